@@ -69,7 +69,12 @@ class Rate34Data(BitsInterface):
         return CRC9.calculate_from_parts(
             data=self.data,
             serial_number=self.dbsn,
-            crc32=self.crc32,
+            # last block always carries 32-bit CRC, it takes part in CRC-9 even when its value is zero
+            crc32=(
+                self.crc32.to_bytes(4, byteorder="big")
+                if self.is_last_block()
+                else self.crc32
+            ),
             mask=CrcMasks.Rate34DataContinuation,
         )
 
